@@ -29,7 +29,7 @@ CFGS = {
     ("C08", "thorough"): dict(Ls="{0, 3}", Ns="{0, 2, 3}", Opts="{4, 5, 6, 7}", Sizes="{1, 2, 4}", MaxSends=4, MaxCrash=1, MaxFault=1, MaxGzWrites=2),
     # days and names: three days, two restarts
     ("C09", "quick"): dict(Ls="{0, 3}", Ns="{0, 1, 2}", Opts="{2, 3, 6}", Sizes="{1, 2}", MaxSends=4, MaxDay=2, MaxRestarts=2),
-    ("C09", "thorough"): dict(Ls="{0, 3}", Ns="{0, 1, 2, 3}", Opts="{2, 3, 6, 7}", Sizes="{1, 2}", MaxSends=5, MaxDay=2, MaxRestarts=2, Ticks="TRUE"),
+    ("C09", "thorough"): dict(Ls="{0, 3}", Ns="{0, 1, 2, 3}", Opts="{2, 3, 6, 7}", Sizes="{1, 2}", MaxSends=5, MaxDay=2, MaxRestarts=1, Ticks="TRUE"),
     # crash at every step and one fault
     # fatal message: any history, then the fatal one, flush, abort
     ("C11", "quick"): dict(Ls="{0, 3}", Ns="{0, 1, 2}", Opts="{0, 1, 4}", Sizes="{1, 2, 4}", MaxSends=3, Fatal="TRUE"),
